@@ -51,4 +51,37 @@ Definition id3h_init : P (list Z) :=
 Definition id3header_load (d : list Z) : result (list Z) := prun id3h_init d.
 Definition id3h_id (l : list Z) : list Z := l.
 
-(* EXTRACT: id3header_load id3h_id *)
+
+(* ---- determine_bpi(data, frames): the two counting loops over the v2.4 frame area ---- *)
+Definition id3_empty10 : list Z := [0;0;0;0;0;0;0;0;0;0].
+(* one `while o < len(data) - 10:` loop; bpi: sizes are read as BitPaddedInt (true) or plain int (false);
+   returns (number of known frame names, the loop's `off` value) *)
+Fixpoint id3_bpi_scan (fuel : nat) (bpi : bool) (data : list Z) (o cnt : Z) : result (Z * Z) :=
+  match fuel with
+  | O => Raise EOutOfFuel
+  | S f =>
+    if o <? zlen data - 10 then
+      let part := lslice o (o + 10) data in
+      if list_eqb part id3_empty10 then Ok (cnt, - ((zlen data - o) mod 10))
+      else if negb (zlen part =? 10) then Raise EStruct                 (* struct.unpack('>4sLH', part) *)
+      else
+        let name := ztake 4 part in
+        let size := if bpi then mpc_bpi7 (zslice 4 8 part) else be_decode (zslice 4 8 part) in
+        (* try: name.decode("ascii") except UnicodeDecodeError: continue ; if name in frames: count += 1 *)
+        id3_bpi_scan f bpi data (o + 10 + size) (if id3_in_frames name then cnt + 1 else cnt)
+    else Ok (cnt, o - zlen data)
+  end.
+(* 7: BitPaddedInt, 8: int *)
+Definition id3_determine_bpi (data : list Z) : result Z :=
+  match id3_bpi_scan (S (length data)) true data 0 0 with
+  | Raise e => Raise e
+  | Ok (asbpi, bpioff) =>
+    match id3_bpi_scan (S (length data)) false data 0 0 with
+    | Raise e => Raise e
+    | Ok (asint, intoff) =>
+      Ok (if (asbpi <? asint) || ((asint =? asbpi) && ((1 <=? bpioff) && (intoff <=? 1))) then 8 else 7)
+    end
+  end.
+Definition id3_bpi_list (b : Z) : list Z := [b].
+
+(* EXTRACT: id3header_load id3h_id id3_determine_bpi id3_bpi_list *)
